@@ -38,6 +38,17 @@ theorem C01_same_program_emit (src out : List Char) (b : Block) (hs : List Hint)
   obtain ⟨c, hc, hrel⟩ := parse_sound src hcr b hs hp
   exact ⟨c, c', hc, accepts_of_tks hl hk hb, blockRel_normS_eq' hrel hrel'⟩
 
+/-- for ANY printable tree (built by hand, not necessarily parsed): the formatted text is a valid chunk whose reference tree is the tree itself
+(modulo parentheses and empty statements) - in particular every string value, in whatever position, is read back as that value (C06 in context), every
+numeral with its canonical value, every operator tree with its shape (C11 with arbitrary atoms) -/
+theorem C08_format_tree (out : List Char) (b : Block) (sty : Style) (hd : DocStyle sty) (hp : Printable b) (hn : NumsCanon (numsBlock b))
+    (hcm : ∀ s, .str s ∈ emit sty b → isCom s = true → Tidy s) (hf : formatI sty b = .ok out) :
+    ∃ c', Spec.Accepts out c' ∧ BlockRel (dropSemis b) (dropEmpty c') := by
+  rw [formatI_eq_format_of_printable sty b hp] at hf
+  obtain ⟨ts, ks, L, hl, hk, hL, hr⟩ := format_lex_g sty hd b hp hn hcm out hf
+  obtain ⟨f, c', hb, hrel'⟩ := read_sim_tcg sty b hp L ks hL hr
+  exact ⟨c', accepts_of_tks hl hk hb, hrel'⟩
+
 /-- **the theorem about the code as it stands** -/
 theorem C01_same_program (src out : List Char) (b : Block) (hs : List Hint) (sty : Style)
     (hcr : NoCR src) (hp : parseText src = .ok (b, hs)) (hd : DocStyle sty)
